@@ -295,6 +295,9 @@ def campaign(pid: str, mod_name: str, tier: str, master_seed: int, n_runs: int, 
         status_counts=agg.status,
         distinct_interleavings=len(agg.interleavings),
         distinct_task_orders=len(agg.task_orders),
+        interleaving_measure="distinct_interleavings = number of distinct digests of a run's full decision trace (index of the thread chosen at every decision "
+                             "point with >= 2 runnable threads); distinct_task_orders = number of distinct digests of the per-executor task sequences "
+                             "(which rex task ran on which single-worker executor, in which order)",
         real_vs_stub=REAL_VS_STUB,
         workers=workers,
         runs_killed_by_wall_clock_guard=len(deaths),
